@@ -1,0 +1,28 @@
+// Package verifhook provides named schedule points for the runtime-verification
+// harness. Without the `verif` build tag Point is an empty function that the
+// compiler removes; with the tag it counts arrivals and can yield or sleep so
+// that a window between two critical sections is widened.
+package verifhook
+
+// Point identifiers.
+const (
+	PcacheDoubleCheckHit = iota // Compute found the entry under the lock: another goroutine compiled the type meanwhile
+	PcacheBeforeCompute         // Compute holds the lock and is about to compile
+	PcacheBeforePublish         // compiled, the new table is not yet published
+	AstParseRawLost             // parseRaw got the lock and found the node already converted
+	AstBeforeAssign             // parseRaw parsed the raw text and is about to publish the parsed form
+	AstAssignMid                // assign stored the payload fields, the type word is not yet stored
+	AstRawLocked                // Raw/MarshalJSON hold the read lock of a node that is still raw
+	NumPoints
+)
+
+// Names of the points, indexed by identifier.
+var Names = [NumPoints]string{
+	"pcache_double_check_hit",
+	"pcache_before_compute",
+	"pcache_before_publish",
+	"ast_parse_raw_lost",
+	"ast_before_assign",
+	"ast_assign_mid",
+	"ast_raw_locked",
+}
